@@ -24,6 +24,7 @@ type Frame struct {
 	Bytes  []byte // network header + payload, flattened
 	Remote tcpip.LinkAddress
 	Local  tcpip.LinkAddress
+	At     time.Time // taken synchronously inside WritePacket
 }
 
 // Link implements stack.LinkEndpoint.
@@ -55,7 +56,7 @@ func (l *Link) IsAttached() bool                             { return l.disp != 
 func (l *Link) WritePacket(r *stack.Route, hdr buffer.Prependable, payload buffer.VectorisedView, proto tcpip.NetworkProtocolNumber) *tcpip.Error {
 	b := append([]byte{}, hdr.View()...)
 	b = append(b, payload.ToView()...)
-	f := Frame{Proto: proto, Bytes: b}
+	f := Frame{Proto: proto, Bytes: b, At: time.Now()}
 	if r != nil {
 		f.Remote, f.Local = r.RemoteLinkAddress, r.LocalLinkAddress
 	}
